@@ -113,6 +113,8 @@ static uint8_t* sbin(const mv* m, size_t i, int32_t* len) {
     return s->b;
 }
 
+/* a bool read through a union member that was not the one written may hold any byte */
+#define BOOLV(x) ((int64_t)*(const unsigned char*)&(x))
 static void put_i(int64_t v) { if (v < 0) printf("i-%" PRIx64, (uint64_t)0 - (uint64_t)v); else printf("i%" PRIx64, (uint64_t)v); }
 static void put_str(const char* s) { if (!s) { putchar('n'); return; } putchar('b'); h_puthex((const uint8_t*)s, strlen(s)); }
 /* pointer + length; lo..hi is the only region (besides the arena) a borrowed pointer may lie in */
@@ -139,11 +141,11 @@ static void stats_to_c(const mv* m, parquet_statistics_t* s) {
 static void stats_print(const parquet_statistics_t* s) {
     printf("r("); put_bin(s->max_deprecated, s->max_deprecated_len); putchar(',');
     put_bin(s->min_deprecated, s->min_deprecated_len); putchar(',');
-    put_i(s->has_null_count); putchar(','); put_i(s->null_count); putchar(',');
-    put_i(s->has_distinct_count); putchar(','); put_i(s->distinct_count); putchar(',');
+    put_i(BOOLV(s->has_null_count)); putchar(','); put_i(s->null_count); putchar(',');
+    put_i(BOOLV(s->has_distinct_count)); putchar(','); put_i(s->distinct_count); putchar(',');
     put_bin(s->max_value, s->max_value_len); putchar(','); put_bin(s->min_value, s->min_value_len); putchar(',');
-    put_i(s->has_is_max_value_exact); putchar(','); put_i(s->is_max_value_exact); putchar(',');
-    put_i(s->has_is_min_value_exact); putchar(','); put_i(s->is_min_value_exact); putchar(')');
+    put_i(BOOLV(s->has_is_max_value_exact)); putchar(','); put_i(BOOLV(s->is_max_value_exact)); putchar(',');
+    put_i(BOOLV(s->has_is_min_value_exact)); putchar(','); put_i(BOOLV(s->is_min_value_exact)); putchar(')');
 }
 
 static void lt_to_c(const mv* m, carquet_logical_type_t* lt) {
@@ -161,9 +163,9 @@ static void lt_print(const carquet_logical_type_t* lt) {
     int64_t v[7] = { (int32_t)lt->id, 0, 0, 0, 0, 0, 0 };
     switch (lt->id) {
         case CARQUET_LOGICAL_DECIMAL: v[1] = lt->params.decimal.scale; v[2] = lt->params.decimal.precision; break;
-        case CARQUET_LOGICAL_INTEGER: v[3] = lt->params.integer.bit_width; v[4] = lt->params.integer.is_signed; break;
-        case CARQUET_LOGICAL_TIME: v[5] = (int32_t)lt->params.time.unit; v[6] = lt->params.time.is_adjusted_to_utc; break;
-        case CARQUET_LOGICAL_TIMESTAMP: v[5] = (int32_t)lt->params.timestamp.unit; v[6] = lt->params.timestamp.is_adjusted_to_utc; break;
+        case CARQUET_LOGICAL_INTEGER: v[3] = lt->params.integer.bit_width; v[4] = BOOLV(lt->params.integer.is_signed); break;
+        case CARQUET_LOGICAL_TIME: v[5] = (int32_t)lt->params.time.unit; v[6] = BOOLV(lt->params.time.is_adjusted_to_utc); break;
+        case CARQUET_LOGICAL_TIMESTAMP: v[5] = (int32_t)lt->params.timestamp.unit; v[6] = BOOLV(lt->params.timestamp.is_adjusted_to_utc); break;
         default: break;
     }
     printf("r(");
@@ -349,17 +351,17 @@ static void ph_print(const parquet_page_header_t* h) {
         case CARQUET_PAGE_DATA:
             v[5] = h->data_page_header.num_values; v[6] = (int32_t)h->data_page_header.encoding;
             v[7] = (int32_t)h->data_page_header.definition_level_encoding; v[8] = (int32_t)h->data_page_header.repetition_level_encoding;
-            v[9] = h->data_page_header.has_statistics; st = &h->data_page_header.statistics;
+            v[9] = BOOLV(h->data_page_header.has_statistics); st = &h->data_page_header.statistics;
             break;
         case CARQUET_PAGE_DICTIONARY:
             v[11] = h->dictionary_page_header.num_values; v[12] = (int32_t)h->dictionary_page_header.encoding;
-            v[13] = h->dictionary_page_header.is_sorted;
+            v[13] = BOOLV(h->dictionary_page_header.is_sorted);
             break;
         case CARQUET_PAGE_DATA_V2:
             v[14] = h->data_page_header_v2.num_values; v[15] = h->data_page_header_v2.num_nulls; v[16] = h->data_page_header_v2.num_rows;
             v[17] = (int32_t)h->data_page_header_v2.encoding; v[18] = h->data_page_header_v2.definition_levels_byte_length;
-            v[19] = h->data_page_header_v2.repetition_levels_byte_length; v[20] = h->data_page_header_v2.is_compressed;
-            v[21] = h->data_page_header_v2.has_statistics;
+            v[19] = h->data_page_header_v2.repetition_levels_byte_length; v[20] = BOOLV(h->data_page_header_v2.is_compressed);
+            v[21] = BOOLV(h->data_page_header_v2.has_statistics);
             break;
         default: break;
     }
